@@ -648,7 +648,14 @@ pub fn run_program(ctx: &Arc<Ctx>) {
     let n = s.verif_thread_count();
     if n > prog.pool { ctx.error("C17", format!("{} pool threads with a maximum of {}", n, prog.pool)); }
     s.verif_set_max(0);
-    s.despawn_threads_if_overloaded();
+    // a scheduling call that read the old maximum just before may still add a thread after the first sweep (the pipes' disposal
+    // object schedules late): sweep until the pool stays empty
+    let mut quiet = 0;
+    while quiet < 2 {
+        s.despawn_threads_if_overloaded();
+        if s.verif_thread_count() == 0 { quiet += 1; } else { quiet = 0; }
+        rt::thread::yield_now();
+    }
 }
 
 pub fn end_oracles(ctx: &Arc<Ctx>, _quiet: u64) {
